@@ -755,13 +755,13 @@ def plan(tier, seed, scale=1.0):
         add("gateway", 300, 2)
         add("shmwire", 60)
     else:
-        add("shm", 110000, 6)
-        add("msg", 40000, 4)
-        add("zmqframes", 1500)
-        add("report", 50000)
-        add("job", 8000, 3)
-        add("gateway", 6000, 2)
-        add("shmwire", 20000)
+        add("shm", 500000, 6)
+        add("msg", 200000, 4)
+        add("zmqframes", 6000)
+        add("report", 250000)
+        add("job", 40000, 3)
+        add("gateway", 30000, 2)
+        add("shmwire", 80000)
     for i, s in enumerate(specs):
         if s["kind"] == "shm" and not s["shard"].endswith("0"):
             s["grid"] = False
